@@ -109,6 +109,7 @@ struct Exec {
     db_write_index: usize,
     record_counts: bool,
     cols: Option<Option<usize>>,
+    kill_after_waits: Option<usize>,
 }
 
 static STATE: Mutex<Option<Exec>> = Mutex::new(None);
@@ -203,6 +204,13 @@ impl Hooks for HarnessHooks {
             e.stop_reason = Some("wait-with-nothing-running".to_string());
             drop(g);
             std::panic::panic_any(StopMarker("wait with nothing running".into()));
+        }
+        if let Some(n) = e.kill_after_waits {
+            if e.waits > n {
+                // The n2 process is killed while blocked here.
+                drop(g);
+                std::panic::panic_any(CrashMarker);
+            }
         }
         if e.waits > e.max_waits {
             e.stop_reason = Some("horizon-exceeded".to_string());
@@ -394,6 +402,8 @@ pub struct ExecConfig {
     pub db_fault: Option<(usize, usize)>,
     pub max_waits: usize,
     pub record_counts: bool,
+    /// Simulate `kill -9` of n2 when it blocks for the (n+1)-th time.
+    pub kill_after_waits: Option<usize>,
 }
 
 #[derive(Debug, Clone, PartialEq, Eq)]
@@ -447,6 +457,7 @@ pub fn run_build(cfg: ExecConfig, opts: BuildOpts) -> ExecOutcome {
         e.db_fault = cfg.db_fault;
         e.max_waits = cfg.max_waits;
         e.record_counts = cfg.record_counts;
+        e.kill_after_waits = cfg.kill_after_waits;
     }
     let _ = crate::worker::take_other_thread_panics();
     let r = catch(|| n2::verif::verif_build(opts));
